@@ -317,3 +317,36 @@ def vals(job):
         return 'ok ' + '|'.join(canon_err(e) for e in r.errors)
     except Exception as e:  # noqa
         return 'valexc ' + vlib.exc_name(e)
+
+
+def casc(job):
+    """(version, text, ec_chars) -> 'hex(to_er7 body) paths' of parse_segment(text): the leaves with their positional paths
+    (field position, repetition, component position, subcomponent position; all 0-based), as the cascade of C01 sees them"""
+    from hl7apy.parser import parse_segment
+    import re
+    v, t, chars = job
+    ec = ec_dict(chars)
+    try:
+        s = parse_segment(t, version=v, encoding_chars=ec, validation_level=vlib.level(False))
+        out = s.to_er7(ec)
+
+        def pos(name):
+            m = re.match(r'^[A-Z0-9_]*?_(\d+)$', name or '')
+            return int(m.group(1)) - 1 if m else 0
+        paths = []
+        seen = {}
+        for f in s.children:
+            i = pos(f.name)
+            r = seen.get(f.name, 0)
+            seen[f.name] = r + 1
+            for c in f.children:
+                j = pos(c.name) if c.name and c.name != c.datatype else 0
+                for sc in c.children:
+                    k = pos(sc.name) if sc.name and sc.name != sc.datatype else 0
+                    leaf = sc.to_er7(ec)
+                    if leaf != '':
+                        paths.append(((i, r, j, k), leaf))
+        paths.sort()
+        return vlib.hexs(out[4:]) + ' ' + ';'.join('%d.%d.%d.%d=%s' % (p + (vlib.hexs(x),)) for p, x in paths)
+    except Exception as e:  # noqa
+        return 'exc ' + vlib.exc_name(e)
